@@ -70,7 +70,10 @@ def run_case(case):
 
         def mk(kind, ent, target, attach, detach):
             i = len(subs)
-            s = H.Sub(log, f"{kind}:{ent}:{i}", raises=bool(mask >> (i % 4) & 1) and i < 8)
+            # (random hashes: every case calls its subscribers in another order, so a raising
+            # one is sometimes first, sometimes last)
+            s = H.Sub(log, f"{kind}:{ent}:{i}", raises=bool(mask >> (i % 4) & 1) and i < 8,
+                      hashv=rnd.getrandbits(20))
             subs.append({"sub": s, "kind": kind, "ent": ent, "attach": attach,
                          "detach": detach, "on": False, "twice": False})
             return s
